@@ -122,7 +122,7 @@ def irrational_variants(ctx):
             raise MachineryError(f'{eid}: {clause}')
         ctx.report(f"{ev['cert']} ({ev['vtype']}) of a storage variant in {describe_cfg(header['u'])} x={ev['x'] if ev['cert'] != 'exp' else [ev['X'], '/', ev['g']]}: {clause}"
                    + (f" (raised {ev['raised']})" if ev['raised'] else ''),
-                   {'kind': 'cert', 'cert': ev['cert'], 'clause': clause, 'vtype': ev['vtype'], 'raised': ev['raised']}, {'trace_header': header, 'event': ev, 'spec': 'TraceOps.tla'})
+                   {'kind': 'cert', 'cert': ev['cert'], 'clause': clause, 'vtype': ev['vtype'], 'raised': ev['raised'], 'null': bool(ev.get('null'))}, {'trace_header': header, 'event': ev, 'spec': 'TraceOps.tla'})
     for f in files:
         lines = list(open(f))
         for line in lines[1:]:
